@@ -1,6 +1,6 @@
 (* History2_Proofs.v - the lockstep theorem of History_Proofs.v for EVERY configuration: passive and active modes, RFC 2428
    on and off, plain and TLS sessions. *)
-From LibFtp Require Import Bytes Decimal Reply Endpoint Ascii DataConn DataConn_Proofs Client Client_Proofs Login_Proofs Transfer_Proofs Transfer_More Transfer_Cb Modes_Proofs Ctl_Proofs History_Proofs.
+From LibFtp Require Import Bytes Decimal Reply Endpoint Ascii DataConn DataConn_Proofs Client Client_Proofs Login_Proofs Transfer_Proofs Transfer_More Transfer_Cb Refusals Modes_Proofs Ctl_Proofs History_Proofs.
 Local Open Scope N_scope.
 
 (* what is fixed along a history: transfer mode, RFC 2428 flag, TLS configured or not, the command that advertises the
@@ -113,7 +113,25 @@ Inductive servesK (k : kit) (t : ttype) : api -> list reaction -> list reply -> 
 | sk_upload_refused_at_command_a u path chunks cb r1 r2 x1 x2 line :
     k_mode k = Active -> k_adv k = Some line -> has_crlf path = false -> simple_reaction r1 x1 -> is_negative x1 = false ->
     simple_reaction r2 x2 -> is_negative x2 = true ->
-    servesK k t (AUpload u path chunks cb) [r1; r2] [x1; x2].
+    servesK k t (AUpload u path chunks cb) [r1; r2] [x1; x2]
+| sk_upload_refused_at_setup_p u path chunks cb r1 x1 :
+    k_mode k = Passive -> has_crlf path = false -> simple_reaction r1 x1 -> is_negative x1 = true ->
+    servesK k t (AUpload u path chunks cb) [r1] [x1]
+(* refused listings (LIST / NLST, with or without a path), every method *)
+| sk_list_refused_at_setup_p path names r1 x1 :
+    k_mode k = Passive -> arg_ok path -> simple_reaction r1 x1 -> is_negative x1 = true ->
+    servesK k t (AList path names) [r1] [x1]
+| sk_list_refused_at_command_p path names r1 r2 x1 x2 ip port :
+    k_mode k = Passive -> arg_ok path -> simple_reaction r1 x1 -> is_negative x1 = false -> ptarget (k_rfc k) x1 ip port ->
+    dp_reachable (r_data r1) = true -> simple_reaction r2 x2 -> is_negative x2 = true ->
+    servesK k t (AList path names) [r1; r2] [x1; x2]
+| sk_list_refused_at_setup_a path names r1 x1 line :
+    k_mode k = Active -> k_adv k = Some line -> arg_ok path -> simple_reaction r1 x1 -> is_negative x1 = true ->
+    servesK k t (AList path names) [r1] [x1]
+| sk_list_refused_at_command_a path names r1 r2 x1 x2 line :
+    k_mode k = Active -> k_adv k = Some line -> arg_ok path -> simple_reaction r1 x1 -> is_negative x1 = false ->
+    simple_reaction r2 x2 -> is_negative x2 = true ->
+    servesK k t (AList path names) [r1; r2] [x1; x2].
 
 Lemma adv_cmd_keeps w w' : w_cfg w' = w_cfg w \/ (c_rfc2428 (w_cfg w') = c_rfc2428 (w_cfg w)) -> w_cur6 w' = w_cur6 w ->
   c_rfc2428 (w_cfg w') = c_rfc2428 (w_cfg w) -> adv_cmd w' = adv_cmd w.
@@ -240,6 +258,16 @@ Proof.
   - destruct (refused_at_transfer_command_active w (upverb_bytes u) path (mkIo cb (mkSink None O) chunks) (fun acc => PumpOut (fun _ => finish_transfer acc)) r1 r2 rest x1 x2 line
                 Hi Hd H H1 H0 H2 H3 H4 H5) as (w' & E & Is & _ & Cf & _).
     change (run _ (set_io w (mkIo cb (mkSink None O) chunks))) with (step w (AUpload u path chunks cb)) in E.
+    apply (Fin _ w' E eq_refl Is I). rewrite Cf. reflexivity.
+  - destruct (upload_refused_at_setup_passive w u path chunks cb r1 rest x1 H0 Hi Hd H H1 H2) as (w' & E & Is & _ & Cf & _).
+    apply (Fin _ w' E eq_refl Is I). rewrite Cf. reflexivity.
+  - destruct (list_refused_at_setup_passive w path names r1 rest x1 H0 Hi Hd H H1 H2) as (w' & E & Is & _ & Cf & _).
+    apply (Fin _ w' E eq_refl Is I). rewrite Cf. reflexivity.
+  - destruct (list_refused_at_command_passive w path names r1 r2 rest x1 x2 ip port H0 Hi Hd H H1 H2 H3 H4 H5 H6) as (w' & E & Is & _ & Cf & _).
+    apply (Fin _ w' E eq_refl Is I). rewrite Cf. reflexivity.
+  - destruct (list_refused_at_setup_active w path names r1 rest x1 line H1 Hi Hd H H0 H2 H3) as (w' & E & Is & _ & Cf & _).
+    apply (Fin _ w' E eq_refl Is I). rewrite Cf. reflexivity.
+  - destruct (list_refused_at_command_active w path names r1 r2 rest x1 x2 line H1 Hi Hd H H0 H2 H3 H4 H5) as (w' & E & Is & _ & Cf & _).
     apply (Fin _ w' E eq_refl Is I). rewrite Cf. reflexivity.
 Qed.
 
